@@ -12,7 +12,9 @@ import BufProofs.Lemmas.ConfigV1
   `readV2 / readV1 / readLockFile / readWork` are the readers at the structured level (external
   structs -> accessor values, `none` = the reader rejects the document), `writeV2 / writeV1 /
   writeLockFile / writeWork` the writers (as coded AFTER the two `fix:` commits), `writeV2Old /
-  writeV1Old` the writers as coded before.  buf.gen.yaml: `BufModel.ConfigGen.readGen / writeGen`.
+  writeV1Old` the writers as coded before.  Migration: `equivLint / equivBreaking` the check-config
+  translation as far as the "switched off" flag goes AFTER the fix, `equivLintOld /
+  equivBreakingOld` before.  buf.gen.yaml: `BufModel.ConfigGen.readGen / writeGen`.
 -/
 namespace BufProofs.C16
 open BufModel.Path BufModel.Config
@@ -199,6 +201,44 @@ theorem migrate_preserves_targets_partial (trL : Lint → Lint) (trB : Breaking 
     readV2 (writeV2 c) = some c ∧
       ∀ f, (owners c.modules f).Perm ((owners ws f).map migratedOwner) :=
   migrate_workspace_owners trL trB ws deps c hr hl hb h
+
+/-- Migration keeps the checks of a module switched off (AFTER the fix
+    handoff/C16-fix-migrate-disabled-module.diff; model `equivLint` / `equivBreaking`:
+    `equivalentCheckConfigInV2` returns `NewDisabledCheckConfig(v2)` for a disabled config and
+    translates only enabled ones).  For the buf.yaml v2 `c` the migrator builds for the
+    v1/v1beta1 workspace `ws`: (1) `c` is read back unchanged from what the v2 writer writes —
+    the writer spells a disabled section `ignore: [<module dir>]` and the reader turns that into
+    "disabled" again (`check_roundtrip`) — and (2) the modules of `c` are exactly the
+    (module, root) pairs of `ws`, each at `dir/root` and each with the SAME lint-off and
+    breaking-off flags as the v1 module it came from (both directions).
+    ASSUMED: `hL`/`hB` the rule-id translation `trL`/`trB` of an ENABLED config builds an enabled
+    config (it ends in `NewEnabledCheckConfig`); `hl`/`hb` it builds a well-formed one; `hr` as in
+    `migrate_preserves_targets_partial`.  The translation itself (rule tables) is not modelled.
+    Before the fix this was false: `migrate_reenables_disabled_counterexample`. -/
+theorem migrate_keeps_disabled (trL trB : Check → Check) (ws : List Module) (deps : List Dep) (c : BufYAML)
+    (hL : ∀ x, x.disabled = false → (trL x).disabled = false)
+    (hB : ∀ x, x.disabled = false → (trB x).disabled = false)
+    (hr : ∀ m ∈ ws, WFRootsV1 m)
+    (hl : ∀ m ∈ ws, m.lint.chk.disabled = false → WFCheck (trL m.lint.chk))
+    (hb : ∀ m ∈ ws, m.breaking.chk.disabled = false → WFCheck (trB m.breaking.chk))
+    (h : migrateFile (equivLint trL) (equivBreaking trB) ws deps = some c) :
+    readV2 (writeV2 c) = some c ∧
+      (∀ m' ∈ c.modules, ∃ m ∈ ws, ∃ r ∈ m.roots,
+          offFlags m' = (m.dirPath ++ r.root, m.lint.chk.disabled, m.breaking.chk.disabled)) ∧
+      (∀ m ∈ ws, ∀ r ∈ m.roots, ∃ m' ∈ c.modules,
+          offFlags m' = (m.dirPath ++ r.root, m.lint.chk.disabled, m.breaking.chk.disabled)) :=
+  migrate_workspace_disabled trL trB ws deps c hL hB hr hl hb h
+
+/-- The migrator as coded BEFORE the fix (`equivLintOld` / `equivBreakingOld`: every check config
+    goes through the translation, which builds an enabled config): a v1 module whose lint and
+    breaking checks are switched off with `ignore: [.]` migrates to a v2 module with both switched
+    on (recorded classes `migrate-lint-changed-disabled-module`,
+    `migrate-breaking-changed-disabled-module`). -/
+theorem migrate_reenables_disabled_counterexample :
+    ∃ c, migrateFile (equivLintOld enabledOf) (equivBreakingOld enabledOf)
+           [⟨["vendor".toList], [], [⟨[], [], []⟩],
+             ⟨Check.disabledCfg, [], false, false, false, [], false⟩, ⟨Check.disabledCfg, false⟩⟩] [] = some c ∧
+      c.modules.map offFlags = [(["vendor".toList], false, false)] := ⟨_, rfl, by decide⟩
 
 /-- The assumption `hr` above holds for everything the v1beta1 / v1 reader returns. -/
 theorem migrate_roots_assumption_holds (ver : Ver) (e : ExtV1) (c : BufYAML) (h : readV1 ver e = some c) :
@@ -410,5 +450,21 @@ example : owners (migrateWorkspace id id wsWitness) ["proto".toList, "src".toLis
 example : owners wsWitness ["proto".toList, "other".toList, "x.proto".toList] = [] := by decide
 example : ∃ c, readV1 .v1beta1 v1beta1Witness = some c ∧ ∀ m ∈ c.modules, WFRootsV1 m :=
   ⟨_, rfl, migrate_roots_assumption_holds .v1beta1 v1beta1Witness _ rfl⟩
+
+-- migrate_keeps_disabled: the same workspace with lint switched off on "proto" (two roots) and
+-- breaking switched off on "api"; the fixed migrator keeps the flags on every migrated module,
+-- also after writing and reading the v2 file
+def offLint : Lint := ⟨Check.disabledCfg, [], false, false, false, [], false⟩
+def offBreaking : Breaking := ⟨Check.disabledCfg, false⟩
+def wsOffWitness : List Module :=
+  [⟨k "proto", [], [⟨k "lib", [], []⟩, ⟨k "src", [], [k "gen"]⟩], offLint, dfltBreaking⟩,
+   ⟨k "api", [], [⟨[], [], [k "tmp"]⟩], dfltLint, offBreaking⟩]
+example : ∃ c, migrateFile (equivLint enabledOf) (equivBreaking enabledOf) wsOffWitness [] = some c ∧
+    c.modules.map offFlags = [(k "api", false, true), (["proto".toList, "lib".toList], true, false),
+                              (["proto".toList, "src".toList], true, false)] ∧
+    (readV2 (writeV2 c)).map (·.modules.map offFlags) = some (c.modules.map offFlags) :=
+  ⟨_, rfl, by decide, by decide⟩
+-- the hypotheses of migrate_keeps_disabled are satisfiable (enabledOf on reader-produced configs)
+example : ∀ x : Check, x.disabled = false → (enabledOf x).disabled = false := fun _ _ => rfl
 
 end BufProofs.C16
